@@ -112,7 +112,6 @@ func init() {
 	})
 }
 
-
 func c10Driver(x *X, in []byte) {
 	blocks, refs := cm.Parse(clone(in))
 	before := tree.Dump(blocks, refs, tree.Full)
